@@ -1,8 +1,88 @@
 package main
 
 import (
+	"fmt"
 	"go/ast"
+	"strings"
 )
+
+// guardedCalls lists, in order, the calls made by the top-level statements of a function together
+// with whether a failure of the call makes the function return at once:
+//   if err := CALL; err != nil { ...; return }      x, err := CALL / if err != nil { return }
+//   if !CALL { return }
+func guardedCalls(fd *ast.FuncDecl) [][2]string {
+	var out [][2]string
+	if fd == nil || fd.Body == nil {
+		return out
+	}
+	endsInReturn := func(b *ast.BlockStmt) bool {
+		if b == nil || len(b.List) == 0 {
+			return false
+		}
+		_, ok := b.List[len(b.List)-1].(*ast.ReturnStmt)
+		return ok
+	}
+	callOf := func(st ast.Stmt) string {
+		switch x := st.(type) {
+		case *ast.AssignStmt:
+			if len(x.Rhs) == 1 {
+				if c, ok := x.Rhs[0].(*ast.CallExpr); ok {
+					return exprString(c.Fun)
+				}
+			}
+		case *ast.ExprStmt:
+			if c, ok := x.X.(*ast.CallExpr); ok {
+				return exprString(c.Fun)
+			}
+		}
+		return ""
+	}
+	pending := ""
+	flush := func(guarded bool) {
+		if pending != "" {
+			out = append(out, [2]string{pending, fmt.Sprint(guarded)})
+			pending = ""
+		}
+	}
+	for _, st := range fd.Body.List {
+		switch x := st.(type) {
+		case *ast.IfStmt:
+			cond := strings.ReplaceAll(exprString(x.Cond), " ", "")
+			if x.Init != nil {
+				flush(false)
+				if c := callOf(x.Init); c != "" {
+					out = append(out, [2]string{c, fmt.Sprint(cond == "err!=nil" && endsInReturn(x.Body))})
+				}
+				continue
+			}
+			if cond == "err!=nil" {
+				flush(endsInReturn(x.Body))
+				continue
+			}
+			flush(false)
+			if u, ok := x.Cond.(*ast.UnaryExpr); ok {
+				if c, ok := u.X.(*ast.CallExpr); ok {
+					out = append(out, [2]string{exprString(c.Fun), fmt.Sprint(endsInReturn(x.Body))})
+				}
+			}
+		default:
+			flush(false)
+			pending = callOf(st)
+		}
+	}
+	flush(false)
+	return out
+}
+
+func coqPairs(ps [][2]string, keep map[string]bool) string {
+	var rows []string
+	for _, p := range ps {
+		if keep[p[0]] {
+			rows = append(rows, "("+coqStr(p[0])+", "+p[1]+")")
+		}
+	}
+	return "[" + strings.Join(rows, "; ") + "]"
+}
 
 // Gen/Handshake.v — does receivePeerEphemeralPubKey validate the peer's ephemeral public key
 // (a curve25519.X25519 call whose error is returned: low-order points are refused)?
@@ -25,6 +105,13 @@ func init() {
 		if validates {
 			v = "true"
 		}
-		write("Handshake.v", "(* handshake.go receivePeerEphemeralPubKey calls curve25519.X25519 on the received point and fails on its error *)\nDefinition handshake_validates_peer_ephemeral : bool := "+v+".\n")
+		body := "(* handshake.go receivePeerEphemeralPubKey calls curve25519.X25519 on the received point and fails on its error *)\nDefinition handshake_validates_peer_ephemeral : bool := " + v + ".\n"
+		crm := parse("contact_request_manager.go")
+		body += "\n(* contact_request_manager.go: the steps of SendContactRequest and handleIncomingRequest in order, each with\n   whether its failure makes the function return at once *)\n"
+		body += "Definition send_request_steps : list (string * bool) := " + coqPairs(guardedCalls(funcDecl(crm, "contactRequestsManager", "SendContactRequest")),
+			map[string]bool{"handshake.RequestUsingReaderWriter": true, "writer.WriteMsg": true, "c.metadataStore.ContactRequestOutgoingSent": true}) + ".\n"
+		body += "Definition incoming_request_steps : list (string * bool) := " + coqPairs(guardedCalls(funcDecl(crm, "contactRequestsManager", "handleIncomingRequest")),
+			map[string]bool{"handshake.ResponseUsingReaderWriter": true, "reader.ReadMsg": true, "bytes.Equal": true, "contact.CheckFormat": true, "c.metadataStore.ContactRequestIncomingReceived": true}) + ".\n"
+		write("Handshake.v", body)
 	})
 }
